@@ -666,10 +666,22 @@ class HeapOps:
         key = self.ev.lift(args[1])
         if isinstance(obj, VRef) and isinstance(key, VStr) and z3.is_string_value(key.t):
             k = key.t.as_string()
-            if name == "hasattr":
-                self._no(node, "hasattr on heap object")
-            if k in self.S.FIELDS:
-                return self.getattr(obj, k, node)
+            owners = self.S.FIELD_OWNERS.get(k)
+            if k in self.S.FIELDS and owners is not None:
+                has = z3.And(obj.t != 0, z3.Or(*[TAG(obj.t) == I(self.S.CLASSES[c]) for c in owners]))
+                if name == "hasattr":
+                    return VBool(has)
+                saved_pure = self.ev.pure
+                self.ev.pure = True  # a guarded read: no attr-of-none obligation
+                try:
+                    val = self.getattr(obj, k, node)
+                finally:
+                    self.ev.pure = saved_pure
+                if len(args) < 3:
+                    if not self.ev.pure:
+                        self.ctx.oblige(self.path, "attr-of-none", f"L{getattr(node, 'lineno', 0)}:getattr {k}", has, node)
+                    return val
+                return self.ev.ite(has, val, self.ev.lift(args[2]))
         self._no(node, f"{name}() form")
 
     def exec_with(self, st, env):
